@@ -119,3 +119,11 @@ Example C15_nonvacuous :
   r_plan (run true true) = {| transfer := [[97]; [98]]; skipped := 1; sp_delete := [[100]] |} /\
   r_plan (run true true) = r_plan (run true false).
 Proof. vm_compute. repeat split. Qed.
+
+(** The model the theorems above are about is the translation of src/bin/copia/plan.rs (needs_transfer, glob_match) as it is now: the function
+    generated from the source by tools/gen_logic.py (Gen/PlanGen.v) equals, on every input, Model/Plan.v needs_transfer and Model/Glob.v glob_match (the source's index-based loops are proved equal to the suffix-based loop)
+    (statement: Proofs/TiePlan.v, [plan_model_is_translation]). *)
+Require Copia.Proofs.TiePlan.
+Theorem C15_model_is_translation_of_source : TiePlan.plan_model_is_translation.
+Proof. exact TiePlan.plan_model_is_translation_holds. Qed.
+Print Assumptions C15_model_is_translation_of_source.
